@@ -96,4 +96,24 @@ func DumpInputWrites(cfg string) {
 		fmt.Println(l)
 	}
 	fmt.Println(st["exported functions returning byte slices"])
+	st = checkInputRetain(p, r.Rule("INPUT-retain", "", 0), true)
+	for _, l := range st["discovered"].([]string) {
+		fmt.Println("retain:", l)
+	}
+	fmt.Println(st["byte-slice parameters of exported functions"])
+	st = checkResultDisjoint(p, r.Rule("RESULT-disjoint", "", 0), true)
+	for _, l := range st["discovered"].([]string) {
+		fmt.Println("overlap:", l)
+	}
+	fmt.Println(st["exported functions with two byte-slice results"])
+	st = checkReturnGlobal(p, r.Rule("RETURN-global", "", 0), true)
+	for _, l := range st["discovered"].([]string) {
+		fmt.Println("return-global:", l)
+	}
+	fmt.Println(st["exported functions with pointer-like results"])
+	st = checkAliasSlice(p, r.Rule("ALIAS-slice", "", 0), true)
+	for _, l := range st["discovered"].([]string) {
+		fmt.Println("alias-slice:", l)
+	}
+	fmt.Println(st["(output pointer, element slice) pairs"])
 }
